@@ -517,3 +517,97 @@ func TestVerifDynamic(t *testing.T) {
 	r.Detail = strings.Replace(r.Detail, "dynamic (not a proof)", "bounded stand-in (not a proof; one profile shape with a paragraph only, an inline exclude and a paragraph exclude; 6 filter lists each; 4 distributions x ABI {3,4} x version {4.0,4.1})", 1)
 	return r
 }
+
+// boundedC13Expansion: bounded stand-in (never counted as proved) for what the contracts of
+// Resolve leave uninterpreted: the strings an expansion produces. The real Resolve is run on
+// a preamble with five variables (one defined through another, one with a trailing slash,
+// one extended by +=, one referring to itself) and 14 attachment patterns, and compared with
+// a reference expansion that replaces one reference at a time by each value of its variable
+// (all combinations, also when one variable occurs twice), collapses "//" after each
+// substitution, and reports undefined and self-referential variables as errors.
+func boundedC13Expansion(env *Env) frame.Result {
+	src := `package aa
+
+import (
+	"fmt"
+	"regexp"
+	"strings"
+	"testing"
+)
+
+var verifRef = regexp.MustCompile("@{([^{}]+)}")
+
+func verifExpand(vars map[string][]string, s string, depth int) ([]string, error) {
+	if depth > 20 {
+		return nil, fmt.Errorf("too deep")
+	}
+	if !strings.Contains(s, "@{") {
+		return []string{s}, nil
+	}
+	m := verifRef.FindStringSubmatchIndex(s)
+	if m == nil {
+		return nil, fmt.Errorf("invalid")
+	}
+	name := s[m[2]:m[3]]
+	vals, ok := vars[name]
+	if !ok {
+		return nil, fmt.Errorf("undefined")
+	}
+	var out []string
+	for _, v := range vals {
+		if strings.Contains(v, "@{"+name+"}") {
+			return nil, fmt.Errorf("recursive")
+		}
+		t := strings.ReplaceAll(s[:m[0]]+v+s[m[1]:], "//", "/")
+		r, err := verifExpand(vars, t, depth+1)
+		if err != nil {
+			return nil, err
+		}
+		out = append(out, r...)
+	}
+	return out, nil
+}
+
+func TestVerifDynamic(t *testing.T) {
+	vars := map[string][]string{"a": {"x", "y"}, "b": {"@{a}/1", "z"}, "c": {"/r/", "/s"}, "e": {"m", "n", "o"}}
+	inputs := []string{"@{a}", "/p/@{a}", "@{a}/@{a}", "@{b}", "@{c}/q", "@{a}@{c}", "@{b}/@{a}", "/no/var", "@{c}@{c}", "@{e}", "/@{e}/@{a}/@{e}", "@{nope}/x", "@{a}/@{nope}", "@{s}"}
+	evals, viol := 0, 0
+	first := ""
+	for _, in := range inputs {
+		f := &AppArmorProfileFile{}
+		f.Preamble = append(f.Preamble, &Comment{}, &Variable{Name: "a", Values: []string{"x", "y"}, Define: true})
+		f.Preamble = append(f.Preamble, &Variable{Name: "b", Values: []string{"@{a}/1", "z"}, Define: true})
+		f.Preamble = append(f.Preamble, &Variable{Name: "c", Values: []string{"/r/", "/s"}, Define: true})
+		f.Preamble = append(f.Preamble, &Variable{Name: "e", Values: []string{"m"}, Define: true}, &Variable{Name: "e", Values: []string{"n", "o"}, Define: false})
+		all := map[string][]string{}
+		for k, v := range vars {
+			all[k] = v
+		}
+		if in == "@{s}" {
+			f.Preamble = append(f.Preamble, &Variable{Name: "s", Values: []string{"/q/@{s}"}, Define: true})
+			all["s"] = []string{"/q/@{s}"}
+		}
+		p := &Profile{}
+		p.Attachments = []string{in, "/second/@{a}"}
+		f.Profiles = append(f.Profiles, p)
+		err := f.Resolve()
+		w1, e1 := verifExpand(all, in, 0)
+		w2, _ := verifExpand(all, "/second/@{a}", 0)
+		want := append(w1, w2...)
+		evals++
+		if (err != nil) != (e1 != nil) || (err == nil && fmt.Sprint(p.Attachments) != fmt.Sprint(want)) {
+			viol++
+			if first == "" {
+				first = fmt.Sprintf(" attachment %q: got %q err=%v, want %q err=%v", in, p.Attachments, err, want, e1)
+			}
+		}
+	}
+	fmt.Printf("VERIF_DYNAMIC evaluations=%d violations=%d%s\n", evals, viol, first)
+}
+`
+	r := runDynamic(env, "pkg/aa", "C13/expansion-of-attachments", src)
+	r.Name = "bounded/C13/expansion-of-attachments"
+	r.Kind, r.Backend = "bounded", "go test, 14 attachment patterns over a five-variable preamble"
+	r.Detail = strings.Replace(r.Detail, "dynamic (not a proof)", "bounded stand-in (not a proof; 14 attachment patterns: nested, repeated and adjacent references, trailing slashes, +=, undefined and self-referential variables)", 1)
+	return r
+}
